@@ -1,4 +1,5 @@
 import InTotoModel.Lemmas.Determinism
+import InTotoModel.Lemmas.Sequential
 import InTotoModel.Lemmas.NoPanic
 /-
   C13 — The verification verdict is a deterministic function of its inputs.
@@ -9,9 +10,16 @@ import InTotoModel.Lemmas.NoPanic
   any environment (key ids, signature validity, clock, inspection outcomes), fuel, layout block,
   caller keys, link directory and name, verification succeeds under one iff it succeeds under the
   other, with the same summary link.  With `c13_failure_is_an_error` (no run ends in a panic) the
-  other verdict, failure, is order independent too.  What may depend on the order is *which*
-  failing sub-layout is met first - hence which inspections of sibling sub-layouts have already
-  run when the run fails - not the verdict.
+  other verdict, failure, is order independent too.
+
+  Inspections see and change the one working directory, so the *sequence* in which inspection
+  commands of different sub-layouts run is an input of the later ones.  Since the `fix:` commit
+  0f00e75 `verify_sublayouts` visits the steps in layout order and the evidence of a step in key-id
+  order (before, in hash order: two delegated steps whose inspections could see each other's link
+  file were accepted in one run and rejected in the next).  `c13_complete_result_is_determined`: under
+  any two families of orders that visit delegated evidence this way - all other sites arbitrary - the
+  complete result is the same: verdict, error stage, summary and the list of inspection commands in
+  the order in which they were started, in failing runs too.
 
   The three places where the code *chooses* or *stops early* depending on the order are stated
   separately: signature counting with its early exit, the agreement check with its arbitrary
@@ -33,6 +41,24 @@ theorem c13_full (env : Env K) (ord ord' : Ord) (h : ord.Valid) (h' : ord'.Valid
     (fuel : Nat) (path : List Str) (b : Block K) (keys : List K) (dir : Dir K) (name : Str) (s : Link) :
     (verify env ord fuel path b keys dir name).1 = .ok s ↔ (verify env ord' fuel path b keys dir name).1 = .ok s := by
   rw [← okPart_eq_some, ← okPart_eq_some, verify_order_independent env ord ord' h h']
+
+/-- **The complete result, inspection commands included.**  `Ord.Sequential`: site 2 keeps the layout
+    order, site 3 sorts by key id (`seqOrd o` is such a family for every `o`); the hash-map iterations
+    proper - signature maps, loaded links, the reference link of the agreement check - stay arbitrary. -/
+theorem c13_complete_result_is_determined (env : Env K) (ord ord' : Ord) (h : ord.Valid) (h' : ord'.Valid)
+    (hs : ord.Sequential) (hs' : ord'.Sequential)
+    (fuel : Nat) (path : List Str) (b : Block K) (keys : List K) (dir : Dir K) (name : Str) :
+    verify env ord fuel path b keys dir name = verify env ord' fuel path b keys dir name :=
+  verify_sequential_deterministic env ord ord' h h' hs hs' fuel path b keys dir name
+
+/-- the premises are met by the orders the driver evaluates every scenario under -/
+theorem c13_code_orders_are_sequential (o : Ord) (h : o.Valid) : (seqOrd o).Valid ∧ (seqOrd o).Sequential :=
+  ⟨seqOrd_valid h, seqOrd_sequential o⟩
+
+/-- Evidence of a step is visited in one order whatever order the table holds it in. -/
+theorem c13_evidence_visited_in_key_id_order {α : Type} {l l' : List (Str × α)} (hp : l.Perm l')
+    (hnd : (l.map Prod.fst).Nodup) : sortKid l = sortKid l' :=
+  sortKid_eq_of_perm hp hnd
 
 /-- Failure is order independent as well: a run that does not succeed ends in an error, never in a
     panic, and it fails under one order iff it fails under the other. -/
